@@ -573,8 +573,16 @@ func genRegionsCase(r *core.Rng, gran string) *RegionsCase {
 		n = r.Range(0, 4)
 	}
 	style := core.Pick(r, []int{0, 0, 1, 1, 2, 3})
+	big := r.Chance(0.06)
+	if big { // many intervals piled on the same positions (beyond 16/32/64-element thresholds)
+		n = core.Pick(r, []int{17, 33, 40, 65, 70, 130})
+		style = 0
+	}
 	for i := 0; i < n; i++ {
 		s, e := coord(r, style), coord(r, style)
+		if big && r.Chance(0.8) {
+			s, e = r.Range(0, 3), r.Range(4, 8)
+		}
 		switch r.Intn(10) {
 		case 0:
 			e = s // empty
@@ -629,6 +637,9 @@ func genRegionsCase(r *core.Rng, gran string) *RegionsCase {
 	add(math.MaxInt)
 	nt := r.Range(1, 4)
 	maxOps := 8
+	if big {
+		nt = r.Range(2, 4)
+	}
 	for t := 0; t < nt; t++ {
 		var ops []RegOp
 		ats := 0
